@@ -24,7 +24,7 @@ import (
 
 // deviation from the default environment
 type dev struct {
-	Kind string `json:"kind"` // none | env | tz | restart | query | histquery | restart+histquery | clock | map | seed
+	Kind string `json:"kind"` // none | rerun | env | tz | restart | query | histquery | restart+histquery | clock | map | seed
 	// env
 	Env []string `json:"env,omitempty"`
 	// restart / query: before block index At (0-based in the history)
@@ -82,7 +82,7 @@ func run(r *report.Run, shard, nshards int, replayFile string) {
 		bb, _ := json.Marshal(v.Replay)
 		_ = json.Unmarshal(bb, &d)
 		base := h.execute(dev{Kind: "none"})
-		got := h.execute(d)
+		got := h.execute(d) // kind "rerun": a second plain execution in this process
 		compare(r, d, base, got)
 		r.States, r.Transitions = int64(len(base)), int64(2*len(base))
 		r.Sample(d)
@@ -112,9 +112,20 @@ func run(r *report.Run, shard, nshards int, replayFile string) {
 		os.Exit(2)
 	}
 	for i := range base {
-		if base[i].Hash != again[i].Hash {
-			fmt.Fprintf(os.Stderr, "harness error: baseline not reproducible at block %d\n%v\n%v\n", base[i].Height, base[i].Detail, again[i].Detail)
-			os.Exit(2)
+		if i >= len(again) || base[i].Hash != again[i].Hash {
+			// the same history executed a second time in the same process (a fresh application over a fresh
+			// database, but whatever the first execution left in process memory is still there) gives another
+			// result: state depends on something outside the chain history. The harness's own script is
+			// deterministic (it has no state of its own between executions), so this is a verdict.
+			if shard == 0 {
+				d := dev{Kind: "rerun"}
+				msg := fmt.Sprintf("deviation %s: the history re-executed in the same process (package-level / in-memory state surviving from the first execution) differs from the first execution at block %d", d, base[i].Height)
+				if i < len(again) {
+					msg += "\n first: " + strings.Join(base[i].Detail, " | ") + "\n again: " + strings.Join(again[i].Detail, " | ")
+				}
+				r.Violate("rerun:process-memory", msg, d)
+			}
+			return
 		}
 	}
 	if shard == 0 {
@@ -207,11 +218,17 @@ func run(r *report.Run, shard, nshards int, replayFile string) {
 				h.snapBytes = max(h.snapBytes, snaps[i].Bytes)
 			}
 		}})
+		bad := false
 		for k := range vehicle {
 			if k >= len(base) || vehicle[k].Hash != base[k].Hash {
-				fmt.Fprintf(os.Stderr, "harness error: plain re-execution not reproducible at block %d\n", base[k].Height)
-				os.Exit(2)
+				d := dev{Kind: "rerun"}
+				r.Violate("rerun:process-memory", fmt.Sprintf("deviation %s: a further plain execution of the history in the same process differs from the first at block index %d", d, k), d)
+				bad = true
+				break
 			}
+		}
+		if bad {
+			break
 		}
 		for _, i := range part {
 			d := devs[i]
